@@ -1,8 +1,381 @@
-"""Native replay of handler-level counterexamples over real sockets against the unmodified server binary (stub)."""
-from .checklib import Finding
+"""Native replay of handler-level counterexamples: the unmodified server binary, real sockets, a history that builds
+the counterexample's pre-state through the public protocol, then the offending line and a set of probes.
 
-def confirm_findings(run, cands):
+A counterexample is *confirmed* when the real server's transcript equals the transcript the interpreter predicts for
+that concrete world (the oracle has already judged that transcript / post-state a violation).  A state the planner
+cannot build through the protocol, or a transcript that differs, is reported as non-reproducing (exit 2), never as a
+violation.
+"""
+import os, re, socket, subprocess, time, json, select, signal
+from .checklib import Finding
+from .values import *
+
+# ---------------------------------------------------------------------------------------------- server / clients
+class Server:
+    def __init__(self, exe, cfg_text, workdir, tag='srv'):
+        self.port = free_port()
+        self.cfg = os.path.join(workdir, f'{tag}_{self.port}.toml')
+        self.errpath = os.path.join(workdir, f'{tag}_{self.port}.err')
+        open(self.cfg, 'w').write(cfg_text.replace('@PORT@', str(self.port)))
+        self.err = open(self.errpath, 'w')
+        self.p = subprocess.Popen([exe, '-c', self.cfg], stdout=self.err, stderr=self.err, env=dict(os.environ, RUST_LOG='error', RUST_BACKTRACE='0'))
+        t0 = time.time()
+        while time.time() - t0 < 10:
+            try:
+                s = socket.create_connection(('127.0.0.1', self.port), timeout=0.3); s.close(); return
+            except OSError:
+                if self.p.poll() is not None: break
+                time.sleep(0.05)
+        raise RuntimeError('server did not start: ' + open(self.errpath).read()[-500:])
+    def stderr_text(self):
+        self.err.flush()
+        return open(self.errpath, errors='replace').read()
+    def alive(self):
+        return self.p.poll() is None
+    def stop(self):
+        try:
+            self.p.kill(); self.p.wait(timeout=5)
+        except Exception:
+            pass
+        self.err.close()
+
+def free_port():
+    s = socket.socket(); s.bind(('127.0.0.1', 0)); p = s.getsockname()[1]; s.close(); return p
+
+class Client:
+    def __init__(self, port, name):
+        self.name = name
+        self.s = socket.create_connection(('127.0.0.1', port), timeout=5)
+        self.buf = b''
+        self.eof = False
+        self.k = 0
+        self.log = []
+    def send(self, line):
+        if self.eof: return
+        try:
+            self.s.sendall(line.encode('utf-8', 'surrogateescape') + b'\r\n')
+        except OSError:
+            self.eof = True
+    def _read_lines(self, timeout):
+        out = []
+        end = time.time() + timeout
+        while True:
+            while b'\n' in self.buf:
+                l, self.buf = self.buf.split(b'\n', 1)
+                out.append(l.rstrip(b'\r'))
+            if out or self.eof: return out
+            left = end - time.time()
+            if left <= 0: return out
+            r, _, _ = select.select([self.s], [], [], left)
+            if not r: return out
+            try:
+                d = self.s.recv(65536)
+            except OSError:
+                d = b''
+            if not d:
+                self.eof = True
+                return out
+            self.buf += d
+    def barrier(self, timeout=5.0):
+        """PING/PONG round trip: everything the server queued for us before answering is returned"""
+        self.k += 1
+        tok = f'sync{self.k}x'
+        self.send('PING ' + tok)
+        got = []
+        end = time.time() + timeout
+        while time.time() < end:
+            for l in self._read_lines(min(0.5, max(0.01, end - time.time()))):
+                if l.endswith((':' + tok).encode()) and b' PONG ' in l:
+                    self.log.extend(got)
+                    return got
+                got.append(l)
+            if self.eof: break
+        got.append(b'<EOF>' if self.eof else b'<TIMEOUT>')
+        self.log.extend(got)
+        return got
+    def close(self):
+        try: self.s.close()
+        except OSError: pass
+
+# ---------------------------------------------------------------------------------------------- config
+def toml_str(s):
+    return '"' + s.replace('\\', '\\\\').replace('"', '\\"') + '"'
+
+def make_config(spec, model, hashes, helper=None):
+    dm = spec.default_user_modes or {}
+    lines = [f'name = {toml_str(spec.server)}', 'admin_info = "admin info"', 'info = "server info"', 'listen = "127.0.0.1"', 'port = @PORT@',
+             'network = "IRCnetwork"', 'motd = "Hello, world!"', f'ping_timeout = {spec.ping_timeout}', f'pong_timeout = {spec.pong_timeout}',
+             'dns_lookup = false', 'log_level = "INFO"']
+    if spec.password: lines.append(f'password = {toml_str(hashes[spec.password])}')
+    if spec.max_connections is not None: lines.append(f'max_connections = {spec.max_connections}')
+    if model.get('has_max_joins', False): lines.append(f'max_joins = {model.get("max_joins", 0)}')
+    lines.append('[default_user_modes]')
+    for m in ('invisible', 'oper', 'local_oper', 'registered', 'wallops'):
+        lines.append(f'{m} = {"true" if dm.get(m, False) else "false"}')
+    for o in spec.operators:
+        lines += ['[[operators]]', f'name = {toml_str(o[0])}', f'password = {toml_str(hashes[o[1]])}']
+        if o[2]: lines.append(f'mask = {toml_str(o[2])}')
+    for u in spec.cfg_users:
+        lines += ['[[users]]', f'name = {toml_str(u[0])}', f'nick = {toml_str(u[1])}']
+        if u[2]: lines.append(f'password = {toml_str(hashes[u[2]])}')
+        if u[3]: lines.append(f'mask = {toml_str(u[3])}')
+    for c in spec.chans:
+        if model.get(f'exists_{c}') and model.get(f'preconf_{c}'):
+            lines += ['[[channels]]', f'name = {toml_str(c)}', '[channels.modes]']
+            if helper:
+                lines += [f'founders = [ {toml_str(helper)} ]', f'operators = [ {toml_str(helper)} ]']
+            lines += ['moderated = false', 'invite_only = false', 'secret = false', 'protected_topic = false', 'no_external_messages = false']
+    return '\n'.join(lines) + '\n'
+
+_HASHES = {}
+def password_hash(exe, pw):
+    """hash printed by the binary's own '-g -P' (argon2id)"""
+    if pw not in _HASHES:
+        r = subprocess.run([exe, '-g', '-P', pw], capture_output=True, text=True, timeout=60)
+        m = re.search(r'Password Hash: (\S+)', r.stdout)
+        if not m: raise RuntimeError('cannot generate password hash: ' + r.stdout + r.stderr)
+        _HASHES[pw] = m.group(1)
+    return _HASHES[pw]
+
+# ---------------------------------------------------------------------------------------------- planner
+HELPER = 'zz'
+RANK_LETTER = {'founder': 'q', 'protected': 'a', 'operator': 'o', 'half_oper': 'h', 'voice': 'v'}
+FLAG_LETTER = {'invite_only': 'i', 'moderated': 'm', 'secret': 's', 'protected_topic': 't', 'no_external_messages': 'n'}
+
+class Unreachable(Exception):
+    pass
+
+def plan(spec, model):
+    """-> list of (client, line) building the world of `model` (dict var -> value) through the protocol"""
+    from .world import RANKS, CHFLAGS, UMODES
+    steps = []
+    nicks = [n for n in spec.nicks if model.get(f'reg_{n}', True)]
+    chans = [c for c in spec.chans if model.get(f'exists_{c}')]
+    need_helper = bool(chans)
+    for n in nicks:
+        if model.get(f'umode_local_oper_{n}') and not (spec.default_user_modes or {}).get('local_oper'):
+            raise Unreachable(f'{n} +O without default_user_modes.local_oper')
+        if model.get(f'umode_registered_{n}') and not (spec.default_user_modes or {}).get('registered') and not any(u[1] == n for u in spec.cfg_users):
+            raise Unreachable(f'{n} +r without configuration')
+    for c in chans:
+        members = [n for n in nicks if model.get(f'mem_{n}_{c}')]
+        steps.append((HELPER, f'JOIN {c}'))
+        for n in members: steps.append((n, f'JOIN {c}'))
+        for n in members:
+            for r in RANKS:
+                if model.get(f'{r}_{n}_{c}'): steps.append((HELPER, f'MODE {c} +{RANK_LETTER[r]} {n}'))
+        if model.get(f'hastopic_{c}'): steps.append((HELPER, f'TOPIC {c} :{spec.topic_text}'))
+        for i, m in enumerate(spec.masks):
+            if model.get(f'ban_{c}_{i}'): steps.append((HELPER, f'MODE {c} +b {m}'))
+            if model.get(f'exc_{c}_{i}'): steps.append((HELPER, f'MODE {c} +e {m}'))
+            if model.get(f'invex_{c}_{i}'): steps.append((HELPER, f'MODE {c} +I {m}'))
+        for n in nicks:
+            if model.get(f'inv_{n}_{c}'):
+                if n in members: raise Unreachable(f'{n} is a member of {c} and holds an invitation to it')
+                steps.append((HELPER, f'INVITE {n} {c}'))
+        fl = ''.join(FLAG_LETTER[f] for f in CHFLAGS if model.get(f'{f}_{c}'))
+        if fl: steps.append((HELPER, f'MODE {c} +{fl}'))
+        if model.get(f'haskey_{c}'): steps.append((HELPER, f'MODE {c} +k {spec.keys[c]}'))
+        if model.get(f'haslimit_{c}'): steps.append((HELPER, f'MODE {c} +l {model.get("limit_" + c, 0)}'))
+        steps.append((HELPER, f'PART {c}'))
+    for c in spec.chans:
+        if not model.get(f'exists_{c}'):
+            for n in nicks:
+                if model.get(f'inv_{n}_{c}'): raise Unreachable(f'invitation to non-existing channel {c}')
+    for n in nicks:
+        m = ''
+        if model.get(f'umode_invisible_{n}'): m += 'i'
+        if model.get(f'umode_wallops_{n}'): m += 'w'
+        if m: steps.append((n, f'MODE {n} +{m}'))
+        if model.get(f'umode_oper_{n}'):
+            if not spec.operators: raise Unreachable(f'{n} is an operator but no operator is configured')
+            steps.append((n, f'OPER {spec.operators[0][0]} {spec.operators[0][1]}'))
+        if model.get(f'away_{n}'): steps.append((n, f'AWAY :{spec.away_text}'))
+    if need_helper: steps.append((HELPER, 'QUIT'))
+    return nicks, need_helper, steps
+
+# ---------------------------------------------------------------------------------------------- prediction
+def predict(prog, case, model, script):
+    """interpreter transcript for the concrete world `model`: script = [(client, line)] run in order.
+    -> dict client -> list of regex-able predicted lines (in socket order), and outcome per step"""
+    from .machine import Machine
+    from .world import World, Spec
+    from .models.fmt_m import DecSeg
+    from . import steplib
+    M = Machine(prog, timeout_ms=20000)
+    M.env['select_start'] = 0
+    spec = Spec(**case.get('spec', {}))
+    w = World(M, prog, spec, fixed=model)
+    conns = {}
+    socks = {}
+    outcomes = []
+    def conn_of(n):
+        if n not in conns:
+            ck = case.get('conn', {}) if n == case.get('actor', spec.nicks[0]) else {}
+            conns[n] = w.add_conn(n, **ck); socks[n] = []
+        return conns[n]
+    for n in spec.nicks:
+        if model.get(f'reg_{n}', True): conn_of(n)
+    for client, line in script:
+        c = conn_of(client)
+        before = len(c['src'].written)
+        qb = {n: len(w.queues[n].log) for n in w.queues}
+        try:
+            r = w.process_line(c, line)
+            outcomes.append('ok' if r != 'PENDING' else 'stall')
+        except Panic as e:
+            outcomes.append('panic: ' + str(e))
+            socks[client].append(None)      # EOF
+            break
+        socks[client].extend(list(s.data) for s in c['src'].written[before:])
+        for n, ch in w.queues.items():
+            new = ch.log[qb.get(n, 0):]
+            if n in socks: socks[n].extend(list(s.data) for s in new)
+    return socks, outcomes
+
+def line_regex(buf):
+    from .models.fmt_m import DecSeg
+    out = []
+    run = []
+    def flush():
+        if run:
+            out.append(re.escape(bytes(run).decode('utf-8', 'surrogateescape'))); del run[:]
+    for x in buf:
+        if isinstance(x, int): run.append(x)
+        else:
+            flush(); out.append(r'\d+')
+    flush()
+    s = ''.join(out)
+    s = re.sub(r'<(rfc2822\\ time|created|datetime)>', '.*', s)
+    return s
+
+# ---------------------------------------------------------------------------------------------- replay
+DEFAULT_PROBES = True
+
+def probes_for(spec, model, actor):
+    ps = []
+    nicks = [n for n in spec.nicks if model.get(f'reg_{n}', True)]
+    for n in nicks:
+        for c in spec.chans:
+            ps.append((n, f'NAMES {c}'))
+    for c in spec.chans:
+        ps.append((actor, f'MODE {c}'))
+        ps.append((actor, f'TOPIC {c}'))
+    ps.append((actor, 'LUSERS'))
+    for n in nicks:
+        ps.append((actor, f'MODE {n}') if n == actor else (n, f'MODE {n}'))
+    return ps
+
+def replay_witness(run, prog, case, witness, release=False, probes=True):
+    """returns (confirmed: True/False/None, text)"""
+    from .world import Spec
+    spec = Spec(**case.get('spec', {}))
+    model = witness['world']
+    actor = witness.get('actor', spec.nicks[0])
+    try:
+        nicks, need_helper, setup = plan(spec, model)
+    except Unreachable as e:
+        return None, 'pre-state not reachable through the protocol: ' + str(e)
+    exe = run.snap.build_server(release)
+    pws = {}
+    for o in spec.operators: pws[o[1]] = password_hash(exe, o[1])
+    for u in spec.cfg_users:
+        if u[2]: pws[u[2]] = password_hash(exe, u[2])
+    if spec.password: pws[spec.password] = password_hash(exe, spec.password)
+    srv = Server(exe, make_config(spec, model, pws, HELPER if need_helper else None), run.snap.dir)
+    clients = {}
+    try:
+        order = ([HELPER] if need_helper else []) + nicks
+        for n in order:
+            c = Client(srv.port, n); clients[n] = c
+            c.send(f'NICK {n}'); c.send(f'USER {n} 0 * :Real {n}')
+            got = c.barrier()
+            if not any(b' 001 ' in l for l in got):
+                return None, f'registration of {n} failed: {got[-3:]}'
+        for n, line in setup:
+            clients[n].send(line)
+            clients[n].barrier()
+        for n in nicks: clients[n].barrier()
+        # the step and the probes
+        line = witness['line']
+        script = [(actor, line)] + (probes_for(spec, model, actor) if probes else [])
+        pred, outcomes = predict(prog, case, model, script)
+        native = {n: [] for n in nicks}
+        for who, ln in script:
+            clients[who].send(ln)
+            got = clients[who].barrier()
+            native[who].extend(got)
+            for n in nicks:
+                if n != who and not clients[n].eof:
+                    native[n].extend(clients[n].barrier(timeout=3))
+            if clients[who].eof: break
+        stderr = srv.stderr_text()
+        panicked = 'panicked at' in stderr
+        diffs = []
+        for n in nicks:
+            want = pred.get(n, [])
+            have = [l for l in native[n]]
+            if want and want[-1] is None:
+                # predicted panic: connection must die
+                if have and have[-1] == b'<EOF>' and panicked: continue
+                diffs.append(f'{n}: predicted handler panic, native: {have[-2:]} panicked={panicked}')
+                continue
+            d = multiset_diff([line_regex(b) for b in want], [l.decode('utf-8', 'surrogateescape') for l in have])
+            if d: diffs.append(f'{n}: ' + d)
+        if any(o.startswith('panic') for o in outcomes):
+            if not panicked: diffs.append('predicted panic but the server did not panic')
+        elif panicked:
+            m = re.search(r'panicked at ([^\n]*)', stderr)
+            diffs.append('server panicked unexpectedly: ' + (m.group(1) if m else ''))
+        text = json.dumps(dict(outcomes=outcomes[:3], native={n: [l.decode('utf-8', 'replace') for l in v][:10] for n, v in native.items()},
+                               stderr=re.findall(r'panicked at [^\n]*', stderr)[:3]))[:2500]
+        if diffs:
+            return False, 'native transcript differs from the interpreter prediction: ' + '; '.join(diffs)[:1500] + ' | ' + text
+        run.native_replays += 1
+        return True, text
+    finally:
+        for c in clients.values(): c.close()
+        srv.stop()
+
+def multiset_diff(want_rx, have):
+    have = list(have)
+    missing = []
+    for rx in want_rx:
+        for i, h in enumerate(have):
+            if re.fullmatch(rx, h, re.S):
+                del have[i]; break
+        else:
+            missing.append(rx)
+    if missing or have:
+        return f'missing {missing[:4]} extra {have[:4]}'
+    return ''
+
+def confirm_findings(run, cands, cases_by_name=None):
+    """replay every candidate natively (dev; release too when the check runs the release profile)"""
     for f in cands:
-        fi = Finding(run.prop, f['kind'], f['site'], f['what'], f['witness'], role=dict(predicate=f.get('predicate', '')))
-        fi.confirmed = None; fi.native = 'socket replay not implemented yet'
+        w = f['witness']
+        fi = Finding(run.prop, f['kind'], f['site'], f['what'], w, role=dict(predicate=f.get('predicate', ''), verb=str(w.get('line', '')).split(' ')[0].upper()))
+        case = (cases_by_name or {}).get(w.get('case')) or getattr(run, 'cases_by_name', {}).get(w.get('case'))
+        if case is None:
+            fi.confirmed = None; fi.native = 'no case description for native replay'
+            run.add_finding(fi); continue
+        prof = w.get('profile', 'dev')
+        try:
+            okk, text = replay_witness(run, run.prog(prof), case, w, release=(prof == 'rel'))
+        except Exception as e:
+            import traceback
+            okk, text = None, 'replay failed: ' + ''.join(traceback.format_exception(type(e), e, e.__traceback__))[-1200:]
+        fi.confirmed = okk; fi.native = text
+        fi.replay = dict(kind='socket', case=case, witness=w, profile=prof)
         run.add_finding(fi)
+
+def replay_file(pid, f):
+    from .checklib import CheckRun
+    rp = f['replay']
+    run = CheckRun(pid, 'quick', 0).prepare((rp.get('profile', 'dev'),))
+    okk, text = replay_witness(run, run.prog(rp.get('profile', 'dev')), rp['case'], rp['witness'], release=(rp.get('profile') == 'rel'))
+    print('confirmed:', okk); print(text[:3000])
+    if okk:
+        print(f'VIOLATION property={pid} replay=(file)')
+        return 1
+    return 0 if okk is False else 2
